@@ -1,6 +1,6 @@
 """Shared-state tie for C16/C17: static inventory of shared mutable objects (AST), runtime discipline check through
 logging proxies, deterministic preemption search, free-running thread soak, history search against fresh imports."""
-import ast, os, sys, json, copy, struct, threading, random, hashlib, importlib
+import ast, os, sys, json, copy, math, struct, threading, random, hashlib, importlib
 
 REPO = os.environ.get('A5_REPO', '/repo')
 MUTATING_METHODS = {'append', 'extend', 'insert', 'pop', 'clear', 'update', 'sort', 'reverse', 'remove', 'setdefault', 'add', 'discard', 'popitem',
@@ -37,7 +37,7 @@ def _module_mutables(tree):
 def static_inventory(repo=REPO):
     """every module-level mutable object, with the functions (in any module) that reference it and how; every instance
     attribute that is written outside __init__"""
-    inv = {'module_objects': {}, 'instance_state': {}}
+    inv = {'module_objects': {}, 'instance_state': {}, '_lines': {}}
     root = os.path.join(repo, 'a5')
     trees = {}
     for dp, _, fns in sorted(os.walk(root)):
@@ -92,6 +92,7 @@ def static_inventory(repo=REPO):
             for n in ast.walk(func):
                 if isinstance(n, ast.Name) and n.id in visible and n.id not in local:
                     uses[visible[n.id]].append((f'{mod.split(".")[-1]}.{func.name}', _usage_kind(func, n)))
+                    inv['_lines'].setdefault(f'{mod.split(".")[-1]}.{func.name}', set()).add(n.lineno)
         for cls in [n for n in tree.body if isinstance(n, ast.ClassDef)]:
             for func in [n for n in cls.body if isinstance(n, ast.FunctionDef) and n.name != '__init__' and not n.name.startswith('_add')]:
                 for n in ast.walk(func):
@@ -308,6 +309,127 @@ def runtime_discipline(rng, ncalls):
         problems.append('a read-only module table changed during the calls')
     return problems, {'calls': len(calls), 'cache_writes': nwrites, 'distinct_slots': len(slots)}
 
+
+# ---------------------------------------------------------------------------------------------
+# inventory-directed search: which functions touch shared state now, and which inputs reach them
+
+IMPORT_TIME_ONLY = {'origin.add_origin', 'origin.generate_origins', 'crs._add_face_centers', 'crs._add_vertices', 'crs._add_midpoints'}
+
+def hot_functions(cur=None, ref=None):
+    """'module.func' names that (a) write a module-level mutable object outside import time, or (b) use shared state in a way the
+    committed inventory does not list (any new read or write)"""
+    cur = cur or static_inventory()
+    hot = set()
+    for k, v in cur['module_objects'].items():
+        old = set((ref or {}).get('module_objects', {}).get(k, {}).get('uses', [])) if ref else None
+        for u in v['uses']:
+            fn, kind = u.rsplit(':', 1)
+            if fn in IMPORT_TIME_ONLY:
+                continue
+            if kind.startswith('write') or (old is not None and u not in old):
+                hot.add(fn)
+    if ref:
+        for k, fns in cur['instance_state'].items():
+            if 'Shape' in k:
+                continue
+            for fn in set(fns) - set(ref.get('instance_state', {}).get(k, [])):
+                hot.add(k.split(':')[0].split('.')[-1] + '.' + fn)
+    return hot
+
+def hot_lines(cur, hot):
+    """{(module basename, function name): line numbers at which the function touches a shared object}"""
+    out = {}
+    for h in hot:
+        out[(h.split('.')[0], h.split('.')[-1])] = set(cur.get('_lines', {}).get(h, set()))
+    return out
+
+def tie_points(rng, n):
+    """points that are, by symmetry, exactly or almost equidistant from two or three face centres (bisecting meridians, the frame's edge
+    midpoints and vertices), and the poles"""
+    pts = []
+    lats = [0.0, 26.565051177078, -26.565051177078, 52.622631859, -52.622631859, 10.812316964, -10.812316964, 40.0, -40.0, 63.4349488, 75.0, -75.0]
+    for k in range(10):
+        lon = ((-93.0 + 36.0 * k + 180.0) % 360.0) - 180.0
+        for la in lats:
+            pts.append((lon, la))
+    pts += [(0.0, 90.0), (0.0, -90.0), (123.0, 90.0)]
+    rng.shuffle(pts)
+    return pts[:n]
+
+def near_frame_calls(mods, rng, n, fine=True):
+    """lonlat_to_cell calls within 1e-12..1e-5 rad of the 62 frame points (face centres first) at fine resolutions, and the inverse calls on the cells found there"""
+    crs = mods['a5.projections.dodecahedron'].crs
+    to_lonlat = mods['a5.core.coordinate_transforms'].to_lonlat
+    to_spherical = mods['a5.core.coordinate_transforms'].to_spherical
+    verts = list(crs._vertices)
+    calls = []
+    for i in range(n):
+        v = verts[i % 12] if i < 2 * n // 3 else rng.choice(verts)
+        lon, lat = to_lonlat(to_spherical(v))
+        e = 10.0 ** rng.uniform(-10.5, -3.5)
+        p = (lon + rng.uniform(-1, 1) * e / max(0.05, math.cos(math.radians(lat))), max(-90.0, min(90.0, lat + rng.uniform(-1, 1) * e)))
+        calls.append(('lonlat_to_cell', (p, rng.choice([27, 28, 29]) if fine else rng.randint(0, 29))))
+    return calls
+
+def reaching_inputs(a5, hot, pool, lines):
+    """{hot function: [calls of the pool whose execution runs one of the lines at which it touches shared state]} (line tracing inside the hot functions only)"""
+    names = {h.split('.')[-1]: h for h in hot}
+    libdir = os.path.join(os.path.realpath(REPO), 'a5')
+    reach = {h: [] for h in hot}
+    for c in pool:
+        seen = set()
+        def local(frame, event, arg):
+            if event == 'line':
+                key = (os.path.basename(frame.f_code.co_filename)[:-3], frame.f_code.co_name)
+                if frame.f_lineno in lines.get(key, ()):
+                    seen.add(names[frame.f_code.co_name])
+            return local
+        def tr(frame, event, arg):
+            if event == 'call' and frame.f_code.co_name in names and frame.f_code.co_filename.startswith(libdir):
+                key = (os.path.basename(frame.f_code.co_filename)[:-3], frame.f_code.co_name)
+                if key in lines:
+                    return local
+            return None if not frame.f_code.co_filename.startswith(libdir) else tr
+        sys.settrace(tr)
+        try:
+            call(a5, *c)
+        except Exception:
+            pass
+        finally:
+            sys.settrace(None)
+        for h in seen:
+            reach[h].append(c)
+    return reach
+
+def directed_pairs(rng, ref_inventory, per_fn=4):
+    """pairs (A, B) of API calls that both run through a function touching shared state (see hot_functions)"""
+    cur = static_inventory()
+    hot = hot_functions(cur, ref_inventory)
+    if not hot:
+        return [], {}, {}
+    lines = hot_lines(cur, hot)
+    a5, mods = fresh_a5()
+    pool = api_calls(rng, 80) + near_frame_calls(mods, rng, 90) + [('lonlat_to_cell', (p, rng.choice([0, 1, 5, 29]))) for p in tie_points(rng, 40)]
+    extra = []
+    for c in pool:
+        if c[0] == 'lonlat_to_cell' and rng.random() < 0.3:
+            try:
+                cell = call(a5, *c)
+                extra.append(('cell_to_lonlat', (cell,))); extra.append(('cell_to_boundary', (cell, {'segments': 1})))
+            except Exception:
+                pass
+    pool += extra
+    reach = reaching_inputs(a5, hot, pool, lines)
+    pairs = []
+    for h, cs in reach.items():
+        if not cs:
+            continue
+        pick = rng.sample(cs, min(per_fn, len(cs)))
+        for i, a in enumerate(pick):
+            for b in pick[i + 1:]:
+                pairs.append((a, b)); pairs.append((b, a))
+    return pairs, lines, {h: len(cs) for h, cs in reach.items()}
+
 # ---------------------------------------------------------------------------------------------
 # C16 searches
 
@@ -346,12 +468,13 @@ def cold_reset(mods):
     cellmod = mods['a5.core.cell']
     cellmod._dodecahedron = type(cellmod._dodecahedron)()
 
-def preemption_search(rng, pairs, max_points, a5=None):
+def preemption_search(rng, pairs, max_points, a5=None, hot=None, only_hot=False, stop_after=None):
     """for API calls A and B: run A under sys.settrace; at the k-th line event inside the library run B to completion
     (a context switch at that line boundary), then let A finish; A's result must equal its undisturbed result.
     Every k up to max_points per pair (systematic, context bound 2)."""
     global WRITER_METHODS
     WRITER_METHODS = writer_methods()
+    hot = hot or {}
     a5, mods = fresh_a5()
     a5ref, _ = fresh_a5()
     fails = []
@@ -373,11 +496,24 @@ def preemption_search(rng, pairs, max_points, a5=None):
         # count line events of A; remember those inside the dynamic extent of a method that writes shared state
         nev = [0]
         critical = []
+        hotcrit = []
+        armed = set()
         def counter(frame, event, arg):
             if not frame.f_code.co_filename.startswith(libdir):
                 return None
             if event == 'line':
                 nev[0] += 1
+                # a line that touches a shared object arms its frame; every later line event of that frame and of its callees is a hot point
+                if frame.f_lineno in hot.get((os.path.basename(frame.f_code.co_filename)[:-3], frame.f_code.co_name), ()):
+                    armed.add(id(frame))
+                g = frame
+                for _ in range(3):
+                    if g is None:
+                        break
+                    if id(g) in armed:
+                        critical.append(nev[0]); hotcrit.append(nev[0])
+                        return counter
+                    g = g.f_back
                 f = frame
                 depth = 0
                 while f is not None and depth < 6:
@@ -398,7 +534,10 @@ def preemption_search(rng, pairs, max_points, a5=None):
         if len(ks) > max_points:
             crit = critical if len(critical) <= max_points else sorted(rng.sample(critical, max_points))
             rest = rng.sample(ks, max(4, max_points // 4))
-            ks = sorted(set(crit) | set(rest))
+            hc = hotcrit if len(hotcrit) <= max_points else sorted(rng.sample(hotcrit, max_points))
+            ks = sorted(set(crit) | set(rest) | set(hc))
+        if only_hot:
+            ks = hotcrit if len(hotcrit) <= max_points else sorted(rng.sample(hotcrit, max_points))
         stats['critical_points'] = stats.get('critical_points', 0) + len(critical)
         for k in ks:
             state = {'n': 0, 'done': False, 'berr': None, 'bres': None}
@@ -431,6 +570,8 @@ def preemption_search(rng, pairs, max_points, a5=None):
                         + (f'raises {errA}' if errA else ('returns a different value' if resA != refA else f'the interrupting call {"raises " + state["berr"] if state["berr"] else "returns a different value"}')))
                 fails.append({'what': what, 'A': A, 'B': B, 'k': k})
                 break
+        if stop_after and len(fails) >= stop_after:
+            break
     return fails, stats
 
 def thread_soak(rng, ncalls, nthreads=8, rounds=2):
@@ -510,6 +651,82 @@ def history_search(rng, nhist, hist_len):
         if len(fails) > 5:
             break
     return fails, {'history_calls': n, 'histories': nhist}
+
+def face_centre_points(mods):
+    crs = mods['a5.projections.dodecahedron'].crs
+    to_lonlat = mods['a5.core.coordinate_transforms'].to_lonlat
+    to_spherical = mods['a5.core.coordinate_transforms'].to_spherical
+    out = []
+    for v in list(crs._vertices)[:12]:
+        lo, la = to_lonlat(to_spherical(v))
+        out.append((((lo + 180) % 360) - 180, la))
+    return out
+
+def directed_history_search(rng, nq):
+    """warm-up on each of the 12 faces (leaving whatever 'last used' state there may be), then queries that are the most sensitive to such
+    state — points equidistant from two or three face centres, frame points at all scales, plus ordinary calls — each compared bit for bit
+    with the same single call on a fresh import"""
+    a5p, mods = fresh_a5()
+    queries = []
+    for p in tie_points(rng, max(10, nq // 3)):
+        queries.append(('lonlat_to_cell', (p, rng.choice([0, 1]))))
+        queries.append(('lonlat_to_cell', (p, rng.choice([2, 5, 12, 29]))))
+    queries += near_frame_calls(mods, rng, nq // 4, fine=False) + api_calls(rng, nq // 4)
+    queries = queries[:nq]
+    cold = []
+    for q in queries:
+        a5c, _ = fresh_a5()
+        try:
+            cold.append(canon(call(a5c, *q)))
+        except Exception as e:  # noqa
+            cold.append(('EXC', type(e).__name__))
+    fails, n = [], 0
+    warm = [('lonlat_to_cell', (p, 3)) for p in face_centre_points(mods)]
+    for w in warm:
+        a5w, _ = fresh_a5()
+        try:
+            call(a5w, *w)
+        except Exception:
+            pass
+        order = list(range(len(queries)))
+        rng.shuffle(order)
+        hist = [w]
+        for i in order:
+            q = queries[i]
+            hist.append(q)
+            try:
+                r = canon(call(a5w, *q))
+            except Exception as e:  # noqa
+                r = ('EXC', type(e).__name__)
+            n += 1
+            if r != cold[i]:
+                # shrink: the warm-up plus this query alone, if that already differs
+                for short in ([w, q], hist[-2:], hist[-3:]):
+                    if len(short) < len(hist) and run_history(short):
+                        hist = short
+                        break
+                fails.append({'what': f'{q[0]}{q[1]!r} returns a different value after a history of {len(hist) - 1} calls (first: {w[0]}{w[1]!r}) than on a fresh import', 'history': hist})
+                break
+        if len(fails) >= 3:
+            break
+    return fails, {'directed_history_calls': n, 'directed_queries': len(queries), 'warmups': len(warm)}
+
+def run_history(hist):
+    """True iff the last call of the history returns something else than on a fresh import"""
+    a5w, _ = fresh_a5()
+    r = None
+    for (name, args) in hist:
+        try:
+            r = canon(call(a5w, name, tuple(args)))
+        except Exception as e:  # noqa
+            r = ('EXC', type(e).__name__)
+    a5c, _ = fresh_a5()
+    name, args = hist[-1]
+    try:
+        rc = canon(call(a5c, name, tuple(args)))
+    except Exception as e:  # noqa
+        rc = ('EXC', type(e).__name__)
+    return r != rc
 
 def call_keep(a5, name, args):
     return getattr(a5, name)(*args)
